@@ -97,6 +97,10 @@ def make_cfg(seed, i):
         cfg["lower"] = cfg["upper"] = None
     cfg["x0"] = x0.tolist()
     cfg["args_mode"] = gen.pick(rng, ["none", "h", "prox", "both"], p=[0.4, 0.15, 0.15, 0.3])
+    if r() < 0.15:
+        # regularised runs with soft restarts that grow the point set (the only route into Model.add_new_point)
+        cfg["restarts"] = dict(increase_npt=bool(r() < 0.8), rhoend=float(10.0 ** rng.uniform(-4, -2)))
+        cfg["maxfun"] = int(gen.pick(rng, [80, 150]))
     return cfg
 
 
@@ -239,6 +243,15 @@ def run_case(case):
         kw["scaling_within_bounds"] = True
     if cfg.get("maxfun"):
         kw["maxfun"] = cfg["maxfun"]
+    if cfg.get("restarts"):
+        upr = {"restarts.use_restarts": True, "restarts.max_unsuccessful_restarts": 3}
+        if cfg["restarts"].get("increase_npt"):
+            upr.update({"restarts.increase_npt": True, "restarts.max_npt": int(min(n + 3, (n + 1) * (n + 2) // 2))})
+            if upr["restarts.max_npt"] <= n + 1:
+                upr.pop("restarts.increase_npt"); upr.pop("restarts.max_npt")
+        kw["user_params"] = upr
+        kw["rhoend"] = cfg["restarts"]["rhoend"]
+        st["family|with-soft-restarts"] = 1
     if cfg.get("lower") is not None and not cfg.get("scaling"):
         # keep the call valid: the default rhobeg = 0.1*max(|x0|,1) can exceed half the narrowest gap of a box far from the origin
         kw["rhobeg"] = float(min(0.1 * max(float(np.max(np.abs(x0))), 1.0), 0.45 * float(np.min(hi - lo))))
